@@ -120,7 +120,9 @@ theorem C17_add_exact_cap_never_writes (F' : Facts) (fz fz2 : Bool) (arr off len
   · exact absurd h (fail_run _ _ _)
   · rw [run_bind_ok] at h; obtain ⟨ys, s1, h1, h⟩ := h
     have := (elems_run h1).1; subst this
-    exact listAppend_exact_cap F' arr off len ys _ _ v h
+    split at h
+    · exact listAppendClipFirst_ext arr off len ys _ _ v h
+    · exact listAppend_exact_cap F' arr off len ys _ _ v h
 
 /-- `D = {"k": 1}` exported; a package calls `D.setdefault("j", 2)`. -/
 def wSetdefault : String × Program :=
